@@ -368,8 +368,42 @@ func c19Read(c *fw.Case) {
 		c.Count("result_sets_with_leading_null", 1)
 	}
 	var res qframe.QFrame
-	if !c.GuardFail("readsql", "ReadSQL", func() { res = qframe.ReadSQL(tx, fns...) }) {
+	// every third result set is fetched through ReadSQLWithArgs: the arguments must reach the driver unchanged
+	var qargs []interface{}
+	if c.No%3 == 1 {
+		qargs = []interface{}{int64(rng.Intn(100)), "arg", 1.5, true}[:1+rng.Intn(4)]
+	}
+	if !c.GuardFail("readsql", "ReadSQL", func() {
+		if qargs != nil {
+			res = qframe.ReadSQLWithArgs(tx, qargs, fns...)
+		} else {
+			res = qframe.ReadSQL(tx, fns...)
+		}
+	}) {
 		return
+	}
+	if qargs != nil {
+		c.Count("read_with_args", 1)
+		var got []driver.Value
+		found := false
+		for _, e := range db.Log {
+			if e.Kind == "query" {
+				got, found = e.Args, true
+				if e.Query != "SELECT * FROM whatever" {
+					c.Fail("query-text", "driver received query %q", e.Query)
+				}
+			}
+		}
+		if !found || len(got) != len(qargs) {
+			c.Fail("query-args", "ReadSQLWithArgs(%v): driver received %v", qargs, got)
+		} else {
+			for i := range qargs {
+				if got[i] != qargs[i] {
+					c.Fail("query-args", "ReadSQLWithArgs(%v): driver received %v", qargs, got)
+					break
+				}
+			}
+		}
 	}
 	if res.Err != nil {
 		c.Fail("readsql-err", "ReadSQL rejected a result set (%v, precision %d): %v", kinds, precision, res.Err)
